@@ -42,10 +42,11 @@ type Solver struct {
 	dumpDir  string // when set, every query is also written there
 	dumpN    int
 	lastFile string
+	restarted bool
 }
 
 func NewSolver(bin string, timeoutMs int) *Solver {
-	s := &Solver{bin: bin, timeout: timeoutMs}
+	s := &Solver{bin: bin, timeout: timeoutMs, dumpDir: os.Getenv("QSYM_DUMP")}
 	s.start()
 	return s
 }
@@ -164,11 +165,18 @@ func (s *Solver) Check(extras []*Term, want []*Term) (res string, model map[stri
 	if res == "sat" && len(want) > 0 {
 		model = s.getValues(want)
 	}
-	s.in.WriteString("(pop)\n")
+	if s.restarted {
+		s.restarted = false // fresh process: the pushed scope is gone
+	} else {
+		s.in.WriteString("(pop)\n")
+	}
 	if res == "unknown" || res == "error" {
 		if res == "error" {
 			s.Stats.Errors++
 			s.lastErr = out
+			if os.Getenv("QSYM_V") != "" {
+				fmt.Fprintln(os.Stderr, "SOLVER ERROR:", out)
+			}
 		}
 		s.Stats.Fallbacks++
 		r2, m2 := s.oneShot(extras, want)
@@ -221,9 +229,16 @@ func (s *Solver) readUntil(marker string) string {
 		sb.WriteString(line)
 		if err != nil {
 			sb.WriteString("(error \"solver pipe closed\")")
-			// restart for later queries
+			// restart for later queries and restore the run scope
+			perm := append([]string(nil), s.perm...)
+			em, du := s.emitted, s.declUF
 			s.Close()
 			s.start()
+			s.emitted, s.declUF = em, du
+			for _, l := range perm {
+				s.sendPerm(l)
+			}
+			s.restarted = true
 			break
 		}
 	}
@@ -470,6 +485,10 @@ func (s *Solver) oneShot(extras []*Term, want []*Term) (string, map[string]Model
 	for _, bin := range []string{"z3", "z3-new"} {
 		out, _ := exec.Command(bin, fmt.Sprintf("-T:%d", secs), "-memory:3000", f.Name()).CombinedOutput()
 		txt := string(out)
+		if strings.Contains(txt, "(error") {
+			s.lastErr = txt
+			continue // an old z3 may drop an assertion it cannot handle and still answer
+		}
 		first := txt
 		rest := ""
 		if k := strings.Index(txt, "\n"); k >= 0 {
